@@ -57,6 +57,16 @@ Example C16_size_budget_ex :
 Proof. exact size_budget_example. Qed.
 Print Assumptions C16_size_budget_ex.
 
+(* C16_size_budget_partial quantifies over every entry name; in particular names that look like
+   packaged dependencies (charts/…​.tgz, nested or not) get no exemption *)
+Example C16_size_budget_any_name_ex :
+  load_archive_files 1000 5 (mkTS false [mkTE "c/Chart.yaml" 48 420 4 "name" false;
+                                         mkTE "c/charts/sub/files/blob.tgz" 48 420 6 "123456" false] false) = inl EFile /\
+  load_archive_files 1000 5 (mkTS false [mkTE "c/Chart.yaml" 48 420 4 "name" false;
+                                         mkTE "c/charts/sub-0.1.0.tgz" 48 420 6 "123456" false] false) = inl EFile.
+Proof. exact file_limit_any_name. Qed.
+Print Assumptions C16_size_budget_any_name_ex.
+
 (* K5 (known finding): a regular-typed entry with directory mode bits is skipped uncounted,
    so the declared content of regular entries can exceed the total limit of an accepted archive *)
 Theorem C16_dirmode_refuted :
